@@ -45,17 +45,6 @@ Definition cinit (pairs : list (bytes * bytes)) : store :=
 Definition crun (kd : ckind) (s0 : store) (ops : list cop) : store :=
   fold_left (fun s o => fst (fst (cstep kd s o))) ops s0.
 
-(** Reference: a map from configuration keys (not storage keys) to values. *)
-Definition spec_caccept (o : cop) : bool :=
-  match o with CSet alpha _ key v =>
-    alpha && (length key <=? 58)%nat && (Z.of_nat (length v) <=? 65535)%Z end.
-Definition spec_cstep (m : gmap bytes bytes) (o : cop) : gmap bytes bytes :=
-  match o with CSet _ _ key v => if spec_caccept o then <[key := v]> m else m end.
-Definition spec_cinit (pairs : list (bytes * bytes)) : gmap bytes bytes :=
-  fold_left (fun m kv => <[fst kv := snd kv]> m) pairs ∅.
-Definition spec_crun (m0 : gmap bytes bytes) (ops : list cop) : gmap bytes bytes :=
-  fold_left spec_cstep ops m0.
-
 Definition opt_val (o : option bytes) : val :=
   match o with Some b => VBytes b | None => VNull end.
 
